@@ -19,6 +19,9 @@ TEXTS = ['abAb', 'aab', 'a.b', '(a)', 'aaa', '']
 PLAIN = ['a', 'ab', 'b', '.', 'a.', '(', 'A', '', 'b*', 'a|b', 'a?']
 REGEX = ['a', 'a|b', 'b*', '(?=a)', '[ab]+', 'a?', 'A', '(a)(b)?', '.', 'a.', '']
 COUNTS = [-1, -2, 0, 1, 2, 10]
+# characters whose lower/upper/casefold forms differ in length or that only compare equal under re.IGNORECASE's rules
+TEXTS_U = ['\u0130ab', 'a\u0130bi', '\u017fsS', '\u03c3\u03c2\u03a3', '\xb5\u03bcM', 'i\u0130I\u0131']
+PATS_U = ['i', 'I', '\u0130', 's', '\u017f', '\u03c3', '\u03c2', 'b', 'ab', '\xb5', 'bi', '\u0131']
 
 
 def tasks(tier, seed):
@@ -26,6 +29,8 @@ def tasks(tier, seed):
     for ti in range(len(TEXTS)):
         for part in range(4):
             out.append({'text': ti, 'part': part})
+    for ti in range(len(TEXTS_U)):
+        out.append({'text': 'u%d' % ti, 'part': 0})
     return out
 
 
@@ -47,7 +52,8 @@ def layouts(text, seed, tier):
 
 def fmt_menu(seed):
     R = explore.roles(seed)
-    return [[[R['G']]], [[R['R'], R['W']]], [[R['R']], [R['W']]]]
+    # the last entry: three bare integers as separate arguments (one extended-colour setting, as in apply_formatting)
+    return [[[R['G']]], [[R['R'], R['W']]], [[R['R']], [R['W']]], ['int:48', 'int:5', 'int:214']]
 
 
 def unfmt_menu(seed):
@@ -66,7 +72,7 @@ def fold(v, which, pat, fmts, regex, match_case, count):
     if which == 'fmt':
         S = []
         for f in fmts:
-            S.extend(f)
+            S.extend([f] if isinstance(f, str) else f)
         for m in ms:
             v.apply_formatting(mk_settings(S), m.start(), m.end())
     else:
@@ -110,7 +116,7 @@ def check_probe(h, which, pat, fmts, regex, match_case, count):
     bad = []
     v = build(h)
     w = build(h)
-    args = [None if f is None else mk_settings(f) for f in fmts]
+    args = [None if f is None else (int(f[4:]) if isinstance(f, str) else mk_settings(f)) for f in fmts]
     what = '%s(%r, %r, regex=%r, match_case=%r, count=%r)' % ('format_matching' if which == 'fmt' else 'unformat_matching',
                                                               pat, fmts, regex, match_case, count)
     try:
@@ -154,8 +160,36 @@ def check_probe(h, which, pat, fmts, regex, match_case, count):
     return bad, n
 
 
+def run_unicode(task, acc):
+    text = TEXTS_U[int(task['text'][1:])]
+    L = len(text)
+    R = explore.roles(acc.seed)
+    hs = [[['plain', text]], [['rainbow', text]], [['plain', text], ['apply', R['R'], 0, L, True]],
+          [['rainbow', text], ['apply', R['W'], 1, L, True]]]
+    for h in hs:
+        acc.state(model.canon_hash(build(h)))
+        acc.evaluations += 1
+        for which, fmts in (('fmt', [[R['G']]]), ('unfmt', []), ('unfmt', [[R['R']]])):
+            for regex in (False, True):
+                for pat in PATS_U:
+                    for mc_ in (False, True):
+                        for count in (-1, 1):
+                            case = {'hist': h, 'which': which, 'pat': pat, 'fmts': fmts, 'regex': regex, 'mc': mc_, 'count': count}
+                            acc.current = case
+                            acc.transitions += 1
+                            bad, n = check_probe(h, which, pat, fmts, regex, mc_, count)
+                            if not bad:
+                                acc.validated += 1
+                            for clause, detail in bad:
+                                acc.violation(clause, case, detail, sig=clause + ':' + which + ':unicode')
+                            if n:
+                                acc.nontriv(hash((task['text'], repr(h), which, pat, regex, mc_, count)))
+
+
 def run_task(task, acc):
     tier = env.tier()
+    if isinstance(task['text'], str):
+        return run_unicode(task, acc)
     text = TEXTS[task['text']]
     hs = layouts(text, acc.seed, tier)
     for hi, h in enumerate(hs):
